@@ -75,32 +75,65 @@ def _hook(node, kind, arg):
     return None
 
 
+def _call_super():
+    w = ACTIVE[0]
+    return w is not None and w.call_super
+
+
 class _Hooks(object):
+    """The user's hook overrides.  In half of the runs they also call the library's own implementation
+    (`super()`), as a careful subclass does; in the other half they do not, as most subclasses do - so the
+    checks see both a library hook body that has become load-bearing and one that refuses or changes something."""
+
     __slots__ = ()
 
     def _pre_detach(self, parent):
-        return _hook(self, "pre_detach", parent)
+        r = _hook(self, "pre_detach", parent)
+        if _call_super():
+            super(_Hooks, self)._pre_detach(parent)
+        return r
 
     def _post_detach(self, parent):
-        return _hook(self, "post_detach", parent)
+        r = _hook(self, "post_detach", parent)
+        if _call_super():
+            super(_Hooks, self)._post_detach(parent)
+        return r
 
     def _pre_attach(self, parent):
-        return _hook(self, "pre_attach", parent)
+        r = _hook(self, "pre_attach", parent)
+        if _call_super():
+            super(_Hooks, self)._pre_attach(parent)
+        return r
 
     def _post_attach(self, parent):
-        return _hook(self, "post_attach", parent)
+        r = _hook(self, "post_attach", parent)
+        if _call_super():
+            super(_Hooks, self)._post_attach(parent)
+        return r
 
     def _pre_detach_children(self, children):
-        return _hook(self, "pre_detach_children", children)
+        r = _hook(self, "pre_detach_children", children)
+        if _call_super():
+            super(_Hooks, self)._pre_detach_children(children)
+        return r
 
     def _post_detach_children(self, children):
-        return _hook(self, "post_detach_children", children)
+        r = _hook(self, "post_detach_children", children)
+        if _call_super():
+            super(_Hooks, self)._post_detach_children(children)
+        return r
 
     def _pre_attach_children(self, children):
-        return _hook(self, "pre_attach_children", children)
+        r = _hook(self, "pre_attach_children", children)
+        if _call_super():
+            super(_Hooks, self)._pre_attach_children(children)
+        return r
 
     def _post_attach_children(self, children):
-        return _hook(self, "post_attach_children", children)
+        r = _hook(self, "post_attach_children", children)
+        if _call_super():
+            super(_Hooks, self)._post_attach_children(children)
+        return r
 
 
 class HNode(_Hooks, Node):
@@ -482,6 +515,7 @@ class World(object):
         self.observe_hooks = observe_hooks
         self.hook_reads = ()
         self.hook_ret = None
+        self.call_super = False
         self.plan = FaultPlan(None)
         self.hooklog = []
         self.fired = []
